@@ -316,7 +316,7 @@ func TestVerifC18Lifecycle(t *testing.T) {
 
 	applied := 0
 
-	deadline := time.Now().Add(5 * time.Second) //nolint:mnd
+	deadline := time.Now().Add(20 * time.Second) //nolint:mnd
 	for time.Now().Before(deadline) {
 		proc.mu.Lock()
 		applied = len(proc.created)
